@@ -103,7 +103,7 @@ def chooseMech (o : Offer) : MechResult := chooseFrom mechBranches o
 
 /-- what the broker can send on channel 0 -/
 inductive BFrame
-  | start (mechanisms : Bytes)
+  | start (offer : Offer)      -- Connection.Start; `offer` = try_utf8_decode(frame_in.mechanisms)
   | tune (channelMax frameMax heartbeat : Int)
   | openOk
   | close (code : Int)
@@ -168,7 +168,7 @@ structure St where
   readerCrashed : Bool := false  -- an exception escaped `on_frame` in the inbound thread
   seen : List BFrame := []       -- ghost: frames dispatched to Channel0 so far
   elapsedMs : Nat := 0           -- since `_wait_for_connection_state` started
-deriving Repr
+deriving DecidableEq, Repr
 
 def write (st : St) (f : CFrame) : St := { st with sent := st.sent ++ [f] }
 
@@ -177,8 +177,8 @@ def credentials (cfg : Config) : Cred → String
   | .literal s => s
 
 /-- `_send_start_ok` -/
-def sendStartOk (cfg : Config) (st : St) (mech : Bytes) : St :=
-  match chooseMech (decodeOffer mech) with
+def sendStartOk (cfg : Config) (st : St) (offer : Offer) : St :=
+  match chooseMech offer with
   | .chosen b => write st (.startOk b.mechanism (credentials cfg b.cred))
   | .unsupported =>
     if unsupportedFailsWithoutWriting then { st with excs := st.excs ++ [.unsupported] } else st
